@@ -16,6 +16,26 @@ CHECKS = {
    "Every released proposal signature over generated histories (by name/by key, slots incl. >= 2^63, restarts, service and handler boundary) is verified, then checked against all earlier releases for that key (same slot, different header) and against the strictly-increasing-slot clause. Held on the histories explored.",
    "Trusted: harness SSZ roots, herumi BLS verification, synthetic accounts.",
    "5/C02"),
+ "C04": ("exploration",
+   "runtime monitor: porcupine linearizability check of concurrent histories recorded at the signer boundary against Dirk's learned sequential semantics; slashability oracle; race detector; hook-steered overlaps",
+   "Short, heavily contended concurrent histories (single and batch requests over 3 shared keys) are recorded at the signer.Service boundary with call/return stamps and, together with a final state read, checked by porcupine against an unpartitioned multi-key model whose step function is the real rules' single-threaded behaviour. A verifhook handler parks requests between their read and write while a rival is in flight so that broken locking becomes an overlap. The same workload runs under the Go race detector. Held on the interleavings observed (thousands of overlapping same-key pairs per run), not on all schedules.",
+   "Trusted: porcupine v1.3.0; the learned table (real code run sequentially); monotonic clock stamps taken outside the call.",
+   "5/C04"),
+ "C05": ("exploration",
+   "runtime monitor: domain-type / admin-IP oracle over all five signing endpoints at service and handler boundaries",
+   "Thousands of requests covering endpoint x domain-type class (incl. look-alikes and lengths != 32 over the wire) x admin-IP list x source address class x batch position; the monitor asserts that generic/multi never return a signature under attester/proposer types (nor one that verifies under them), exits only from listed addresses, and that the protected endpoints refuse foreign types without touching stored state.",
+   "Trusted: harness signing-root code; the IP in the credentials stands in for the SourceIP interceptor at the in-process boundary.",
+   "5/C05"),
+ "C08": ("exploration",
+   "runtime monitor: independent BLS verification of every returned signature over harness-computed signing roots, across batch sizes x GOMAXPROCS; race detector on batch paths",
+   "Every signature returned for well-formed random requests (single and batches of 24 sizes from 1 to 511, GOMAXPROCS 1..61, service and handler boundary, by name/key/over-long key) is verified with herumi directly under the addressed account's key over a signing root computed by the harness's own SSZ code, and must not verify under a neighbouring account of the batch; response lengths must equal request lengths. Batch paths also run under the race detector.",
+   "Trusted: harness SSZ code, herumi VerifyByte.",
+   "5/C08"),
+ "C09": ("exploration",
+   "runtime monitor: sequential watermark specification (advancing => signed), twin-instance batch-vs-single differential, exhaustive util.Scatter partition grid",
+   "(1) In generated histories every request the specification calls advancing must be SUCCEEDED with a valid signature; (2) each batch of distinct keys is sent as a batch to one instance and entry-by-entry to a twin with the same history, verdict vectors must agree for sizes 1..400 and GOMAXPROCS 1..61; (3) util.Scatter is called for every n in 1..700 and 35 GOMAXPROCS values and its extents must partition [0,n) (that grid is exhaustive).",
+   "Trusted: oracle.WM transcribes the statement; twin instances share nothing but the generator.",
+   "5/C09"),
 }
 
 NOT_YET = {
